@@ -54,7 +54,7 @@ def features(case):
             f.add("tmo"); late.add(s["r"])
         if s["op"] == "ans" and s["r"] in late:
             f.add("late")
-        if s["op"] in ("dup", "ghost", "close", "race"):
+        if s["op"] in ("dup", "ghost", "close", "race", "racegone"):
             f.add(s["op"])
     return f
 
@@ -116,18 +116,23 @@ def run(ctx):
     # ---- case streams
     tcases = emit(ctx, "XStreamConn", "XStreamConn_emit.cfg" if q else "XStreamConn_emit_thorough.cfg")
     hall = [json.loads(x) for x in emit(ctx, "XHop", "XHop_emit.cfg")]
+    deep = 0
+    if not q:
+        h6 = emit(ctx, "XHop", "XHop_emit_thorough.cfg")
+        deep = len(h6)
+        hall6 = [json.loads(x) for x in rng.sample(h6, min(len(h6), 20000))]
     if q:
         # every schedule in which a colliding id meets a proxy-made error reply or a late/duplicate answer, plus a VERIF_SEED sample
         def core(c):
             f = features(c)
-            return ("collision" in f and ("late" in f or "dup" in f) and "tmo" in f) or "race" in f
+            return ("collision" in f and ("late" in f or "dup" in f) and "tmo" in f) or "race" in f or "racegone" in f
         keep = [c for c in hall if core(c)]
         rest = [c for c in hall if not core(c)]
-        if len(keep) > 1500:
-            keep = rng.sample(keep, 1500)
-        hcases = keep + rng.sample(rest, min(len(rest), 1500))
+        if len(keep) > 1300:
+            keep = rng.sample(keep, 1300)
+        hcases = keep + rng.sample(rest, min(len(rest), 1100))
     else:
-        hcases = hall
+        hcases = hall + hall6
     rng.shuffle(hcases)
     tpath = os.path.join(ctx.tmp, "c02_table_cases.jsonl")
     open(tpath, "w").write("\n".join(tcases) + "\n")
@@ -173,7 +178,7 @@ def run(ctx):
     storms = [r for r in sres if not r.get("summary")]
     coll = sum(r.get("collisions", 0) for r in runs)
     div = sum(1 for r in runs if r.get("diverged", 0))
-    ctx.cov["hop"] = dict(schedules_enumerated=len(hall), schedules_run=len(runs), id_collisions_realised=coll,
+    ctx.cov["hop"] = dict(schedules_enumerated=len(hall), schedules_enumerated_depth6=deep, schedules_run=len(runs), id_collisions_realised=coll,
                           schedules_with_unrealisable_step=div, response_vs_timeout_races_forced=sum(r.get("races", 0) for r in runs), skipped_after_lost_waits=skipped, lost_waits=lost)
     ctx.cov["storm"] = dict(rounds=len(storms), requests=sum(r.get("requests", 0) for r in storms),
                             error_replies=sum(r.get("errors", 0) for r in storms),
@@ -187,8 +192,8 @@ def run(ctx):
     ctx.cov["distinct_nontrivial"] = len(tcases) + len([c for c in hcases if features(c)])
     ctx.cov["exhaustive"] = not q
     ctx.cov["rule"] = ("table: every history of <=%d ops (new/resp for any waiter's latest id/ghost id/reset/connreset) over 3 waiters, id counter "
-                       "seeded at 2^32-2, replayed into the real bolt client stream connection; hop: every schedule of 6 steps over 3 requests "
-                       "on <=2 downstream connections (send with fresh or colliding id and long or short timeout / ans / dup / ghost / tmo / race = answer held in its handler while the timeout ends the request / close) "
+                       "seeded at 2^32-2, replayed into the real bolt client stream connection; hop: every schedule of 5 steps (thorough: plus a VERIF_SEED sample of 20000 of the 6-step schedules) over 3 requests "
+                       "on <=2 downstream connections (send with fresh or colliding id and long or short timeout / ans / dup / ghost / tmo / race, racegone = answer held in its handler while the timeout / the client's disconnect ends the request / close) "
                        "from XHop.tla (%d), quick = collision+timeout+late/dup core plus a VERIF_SEED sample; storm: VERIF_SEED-randomised "
                        "pipelined clients on shared connections; h1: sequential HTTP/1.1 clients over pooled ping-pong upstream connections, 30%% of the "
                        "requests time out in the proxy before the upstream answers" % (5 if q else 6, len(hall)))
